@@ -121,13 +121,15 @@ def handleTransform (toks : List String) : String :=
     match strategy? st, set?, rm?, names? sel, items? items with
     | some st, some set, some rm, some sel, some a => "ok " ++ itemsS (transform st (xattrF (selOf sel) set rm) a)
     | _, _, _, _, _ => "bad-op"
-  | [st, "strip", flags, kp, items] =>
+  | [st, "strip", flags, kp, sel, items] =>
     let kp? : Option (Option (List Bytes)) :=
       if kp == "-" then some none else if kp == "." then some (some []) else ((kp.splitOn ",").mapM ofHex).map some
-    match strategy? st, flags.toList, kp?, items? items with
-    | some st, [kt, kpm, kx, ka], some kp, some a =>
-      "ok " ++ itemsS (transform st (stripF ⟨kt == '1', kpm == '1', kx == '1', kp, ka == '1'⟩) a)
-    | _, _, _, _ => "bad-op"
+    -- `*`: no FILES argument (every entry); otherwise the names the patterns select
+    let sel? : Option (Bytes → Bool) := if sel == "*" then some (fun _ => true) else (names? sel).map selOf
+    match strategy? st, flags.toList, kp?, sel?, items? items with
+    | some st, [kt, kpm, kx, ka], some kp, some sel, some a =>
+      "ok " ++ itemsS (transform st (stripF sel ⟨kt == '1', kpm == '1', kx == '1', kp, ka == '1'⟩) a)
+    | _, _, _, _, _ => "bad-op"
   | _ => "bad-op"
 
 /-- `name:body,name:body,…` -/
